@@ -306,4 +306,6 @@ class ScalarPlugin(object):
 def default_externals():
     X = ExternalModels()
     X.plugins.append(ScalarPlugin())
+    from . import symlist
+    symlist.install(X)
     return X
